@@ -288,3 +288,128 @@ func ruleR046(c *Ctx) {
 		c.Undecided("parser2#default-matchers", token.NoPos, "no function of type Matcher found")
 	}
 }
+
+// ---------------------------------------------------------------------------
+// R04.7 slicing and indexing of strings on the parsing path is bounded
+
+// ruleR047: in package parser2 every slice or index expression on a string
+// has bounds that cannot exceed the string: absent, the constant 0, a sum of
+// decode widths / lengths of that string (byte counts by construction), or an
+// expression that is compared with len(s) on the way. A constant such as
+// s[:4] without a length test is an index panic on short input - raised on
+// the tokenizer goroutine, where no caller can recover it.
+func ruleR047(c *Ctx) {
+	root := c.Pkg("")
+	if root == nil {
+		c.Undecided("package parser2", token.NoPos, "not found")
+		return
+	}
+	info := root.TypesInfo
+	n := 0
+	for _, f := range root.Syntax {
+		for _, d := range f.Decls {
+			fd, ok := d.(*ast.FuncDecl)
+			if !ok || fd.Body == nil {
+				continue
+			}
+			env := &unitEnv{c: c, info: info, vars: map[types.Object]strUnit{}}
+			// widths of decoded runes and lengths are byte counts
+			for round := 0; round < 2; round++ {
+				ast.Inspect(fd.Body, func(x ast.Node) bool {
+					as, ok := x.(*ast.AssignStmt)
+					if !ok {
+						return true
+					}
+					if len(as.Lhs) == 2 && len(as.Rhs) == 1 {
+						if call, ok := ast.Unparen(as.Rhs[0]).(*ast.CallExpr); ok && isDecodeRune(info, call) {
+							if id, ok := ast.Unparen(as.Lhs[1]).(*ast.Ident); ok && id.Name != "_" {
+								env.vars[info.ObjectOf(id)] = unitByte
+							}
+						}
+						return true
+					}
+					if len(as.Lhs) == len(as.Rhs) {
+						for i, l := range as.Lhs {
+							if id, ok := l.(*ast.Ident); ok && id.Name != "_" {
+								if u := env.unit(as.Rhs[i]); u == unitByte {
+									if call, isCall := ast.Unparen(as.Rhs[i]).(*ast.CallExpr); isCall {
+										if cal := Callee(info, call); cal != nil && cal.Pkg() != nil && (cal.Pkg().Path() == "strings" || cal.Pkg().Path() == "bytes") {
+											continue // Index results can be -1: not a safe bound on their own
+										}
+									}
+									env.vars[info.ObjectOf(id)] = unitByte
+								}
+							}
+						}
+					}
+					return true
+				})
+			}
+			fname := declName(root, fd)
+			k := 0
+			ast.Inspect(fd.Body, func(x ast.Node) bool {
+				var base ast.Expr
+				var bounds []ast.Expr
+				switch t := x.(type) {
+				case *ast.SliceExpr:
+					base, bounds = t.X, []ast.Expr{t.Low, t.High, t.Max}
+				case *ast.IndexExpr:
+					base, bounds = t.X, []ast.Expr{t.Index}
+				default:
+					return true
+				}
+				bt, ok := info.TypeOf(base).Underlying().(*types.Basic)
+				if !ok || bt.Info()&types.IsString == 0 {
+					return true
+				}
+				k++
+				n++
+				key := fmt.Sprintf("%s#string-bounds[%d]:%s", fname, k, nodeStr(c.Fset, x))
+				var bad []string
+				for _, b := range bounds {
+					if b == nil {
+						continue
+					}
+					if tv := info.Types[b]; tv.Value != nil {
+						if v, ok := constInt(tv); ok && v == 0 {
+							continue
+						}
+					} else if env.unit(b) == unitByte {
+						if call, isCall := ast.Unparen(b).(*ast.CallExpr); !isCall || !strings.HasPrefix(nodeStr(c.Fset, call.Fun), "strings.") {
+							continue
+						}
+					}
+					// a length test on the way
+					guarded := false
+					fn := c.EnclosingFunc(x)
+					if g := c.CFG(fn); g != nil {
+						for _, gd := range g.Guards(x) {
+							if containsNode(gd.Cond, func(y ast.Node) bool {
+								call, ok := y.(*ast.CallExpr)
+								if !ok || len(call.Args) != 1 {
+									return false
+								}
+								id, ok := ast.Unparen(call.Fun).(*ast.Ident)
+								return ok && id.Name == "len" && nodeStr(c.Fset, call.Args[0]) == nodeStr(c.Fset, base)
+							}) {
+								guarded = true
+							}
+						}
+					}
+					if !guarded {
+						bad = append(bad, nodeStr(c.Fset, b))
+					}
+				}
+				if len(bad) == 0 {
+					c.OK(key, x.Pos(), "bounds are decode widths/lengths of the string, zero, or tested against its length")
+				} else {
+					c.Violation(key, x.Pos(), "%s is sliced/indexed with %s, which is neither derived from the string's own decode widths nor compared with len(%s): input that ends early raises an index panic (on the tokenizer goroutine no caller can recover it, the process dies)", nodeStr(c.Fset, base), strings.Join(bad, ", "), nodeStr(c.Fset, base))
+				}
+				return true
+			})
+		}
+	}
+	if n < 6 {
+		c.Undecided("parser2#string-slicing", token.NoPos, "only %d slice/index expressions on strings found", n)
+	}
+}
